@@ -8,7 +8,7 @@
    correspondence of this model with the implementation (tools/props/c02.py). *)
 From Coq Require Import ZArith List Bool.
 From Coq Require Import Permutation.
-Require Import PyLib SuiteTypes Crypto KeySchedule QuicKeys QuicPn QuicDissector QuicFrames QuicTls QuicSession TlsRecords QuicPackets QuicBuildP QuicEpochP QuicCryptoP C17RoundP QuicShortP QuicLongPackets QuicLongP QuicInitialP QuicZeroRttP QuicHelloP.
+Require Import PyLib SuiteTypes Crypto KeySchedule QuicKeys QuicPn QuicDissector QuicFrames QuicTls QuicSession TlsRecords QuicPackets QuicBuildP QuicEpochP QuicCryptoP C17RoundP QuicShortP QuicLongPackets QuicLongP QuicInitialP QuicZeroRttP QuicHelloP QuicKeysInstalledP.
 Import ListNotations.
 Open Scope Z_scope.
 
@@ -204,3 +204,26 @@ Theorem C02_quic_server_hello : forall q (l3 hv random sid suite rest : bytes) c
   exists q', handle_server_hello q msg = (q', true) /\ qt_ciphersuite q' = Some suite /\ qt_client_random q' = qt_client_random q /\ qt_new_data q' = true.
 Proof. exact quic_server_hello. Qed.
 Print Assumptions C02_quic_server_hello.
+
+(* From the hellos to the keys: set_tls_decryptors, called with the client random and the suite read from the CRYPTO stream
+   (C02_quic_client_hello, C02_quic_server_hello), installs for each of the four QUIC suites exactly what dev_quic_keys derives from the
+   key-log lines of this client random (C15_quic_*: what that is) -- the cipher, the Handshake keys, the first generation of 1-RTT keys
+   and the header-protection keys that C02_handshake_packet_extracted, C02_short_packet_extracted, C02_one_rtt_datagram and
+   C02_key_phase_* start from -- and changes nothing else of the session. *)
+Theorem C02_quic_keys_installed : forall C keylog s cr suite h ci kl k chs shs capp sapp,
+  suite_choice suite = Some (h, ci, kl) ->
+  dev_quic_keys C kl (filter (fun x => bytes_eqb (s_random x) cr) keylog) h (qs_version s) = Ok k ->
+  q_chs k = Some chs -> q_shs k = Some shs -> q_capp k = Some capp -> q_sapp k = Some sapp ->
+  key_ok ci (t_key chs) = true -> key_ok ci (t_key shs) = true -> key_ok ci (t_key capp) = true -> key_ok ci (t_key sapp) = true ->
+  exists s', set_tls_decryptors C keylog s cr suite = (s', true) /\
+    qs_cipher s' = Some ci /\ qs_hash s' = Some h /\
+    qs_handshake s' = Some {| qd_skey := t_key shs; qd_siv := t_iv shs; qd_ckey := t_key chs; qd_civ := t_iv chs |} /\
+    qs_app s' = Some [ {| g_skey := t_key sapp; g_siv := t_iv sapp; g_ckey := t_key capp; g_civ := t_iv capp; g_ssec := t_sec sapp; g_csec := t_sec capp |} ] /\
+    hp_client_handshake (qs_hp s') = Some (t_hp chs) /\ hp_server_handshake (qs_hp s') = Some (t_hp shs) /\
+    hp_client_app (qs_hp s') = Some (t_hp capp) /\ hp_server_app (qs_hp s') = Some (t_hp sapp) /\
+    hp_client_initial (qs_hp s') = hp_client_initial (qs_hp s) /\ hp_server_initial (qs_hp s') = hp_server_initial (qs_hp s) /\
+    qs_initial s' = qs_initial s /\ qs_output s' = qs_output s /\ qs_pn s' = qs_pn s /\ qs_tls s' = qs_tls s /\
+    qs_client_cids s' = qs_client_cids s /\ qs_server_cids s' = qs_server_cids s /\ qs_version s' = qs_version s /\
+    qs_epoch_client s' = qs_epoch_client s /\ qs_epoch_server s' = qs_epoch_server s.
+Proof. exact quic_keys_installed. Qed.
+Print Assumptions C02_quic_keys_installed.
